@@ -219,6 +219,7 @@ struct Stats {
     boundary_writes: u64,
     settings_reapplied: u64,
     off_on_toggles: u64,
+    snapshot_roundtrips: u64,
     fast_forward_preludes: u64,
     drains: u64,
     undrained_runs: u64,
@@ -338,6 +339,7 @@ fn tracking_case(ctx: &Ctx, rng: &mut Rng, id: u64, st: &mut Stats) {
     let mut pending: Vec<(u64, Vec<(f32, f32)>)> = vec![];
     let host_reapplies = rng.chance(1, 3);
     let host_toggles = rng.chance(1, 4);
+    let host_snapshots = rng.chance(1, 5);
     while frames_done < nframes && steps < max_steps {
         let pc = m.cpu().regs.get_pc();
         let is_out = m.peek(pc) == 0xD3 && m.peek(pc.wrapping_add(1)) == 0xFE;
@@ -371,6 +373,19 @@ fn tracking_case(ctx: &Ctx, rng: &mut Rng, id: u64, st: &mut Stats) {
                 m.emu.set_speed(rustzx_core::EmulationMode::FrameCount(1));
             }
             st.off_on_toggles += 1;
+        }
+        // the host takes a snapshot at the frame end and loads it straight back (same state) before it
+        // fetches the frame's samples: the frame it has just emulated is delivered all the same
+        if host_snapshots && wrapped && frame == 2 {
+            let mut rec = crate::host::VecRecorder { data: vec![], chunk: 0 };
+            if m.emu.save_snapshot(rustzx_core::host::SnapshotRecorder::Sna(&mut rec)).is_ok() {
+                if m.emu.load_snapshot(rustzx_core::host::Snapshot::Sna(crate::host::mem_asset(rec.data))).is_ok() {
+                    st.snapshot_roundtrips += 1;
+                } else {
+                    ctx.inconclusive("C19: reloading the emulator's own snapshot failed (C13's business)");
+                    return;
+                }
+            }
         }
         if wrapped {
             let s = m.drain_audio();
@@ -591,6 +606,7 @@ pub fn run(ctx: &Ctx) -> Evidence {
         tot.boundary_writes += r.boundary_writes;
         tot.settings_reapplied += r.settings_reapplied;
         tot.off_on_toggles += r.off_on_toggles;
+        tot.snapshot_roundtrips += r.snapshot_roundtrips;
         tot.fast_forward_preludes += r.fast_forward_preludes;
         tot.drains += r.drains;
         tot.undrained_runs += r.undrained_runs;
@@ -612,6 +628,7 @@ pub fn run(ctx: &Ctx) -> Evidence {
     ev.add_num("port_fe_writes_within_30T_of_a_frame_boundary", tot.boundary_writes);
     ev.add_num("host_reapplied_sound_settings_between_frames", tot.settings_reapplied);
     ev.add_num("sound_or_speed_switched_off_and_on_while_stopped", tot.off_on_toggles);
+    ev.add_num("own_snapshot_saved_and_reloaded_before_a_drain", tot.snapshot_roundtrips);
     ev.add_num("cases_after_a_fast_forward_pass_ended_by_a_breakpoint", tot.fast_forward_preludes);
     ev.add_num("full_drains", tot.drains);
     ev.add_num("full_drains_after_undrained_frames", tot.undrained_runs);
